@@ -352,7 +352,7 @@ def close_while_paused(ctx, quick):
     # completeness of the data only
     spec = os.path.join(VERIF, 'specs', 'Lifecycle')
     consts = dict(Chans='{1}', Reject='{}', MaxOps=7, Cuts=0,
-                  ConnOps='FALSE', WithData='TRUE', FailReqOnClose='TRUE',
+                  ConnOps='FALSE', WithData='TRUE', Win=0, FlowVariant='"none"', FailReqOnClose='TRUE',
                   ResolveOnConnCleanup='TRUE')
     lines = ['CONSTANTS'] + [f'  {k} = {v}' for k, v in consts.items()]
     lines += ['SPECIFICATION Spec', 'CHECK_DEADLOCK FALSE']
@@ -388,8 +388,19 @@ def close_while_paused(ctx, quick):
                                   'script': r['script']})
 
 
+DUPLEX = ('HonestNoError', 'AllDelivered', 'DataBeforeClose')
+
+
 def main(ctx):
     quick = ctx.tier == 'quick'
+    if ctx.replay_path:
+        import json
+        rp = json.load(open(ctx.replay_path))
+        if rp['replay'].get('kind') == 'duplex':
+            return cc.duplex_replay(ctx, rp['replay'], rp['signature'],
+                                    DUPLEX)
+        raise SystemExit('this replay kind needs the model states; run the '
+                         'check itself')
     # ---- design check ----
     cc.mc(ctx, 'c07_mc1', {}, cc.C07_INVS + cc.C08_INVS)
     cc.mc(ctx, 'c07_mc2', dict(Chans='{1, 2}', DTs='{0}', InitWin=2, PktSize=1,
@@ -421,6 +432,9 @@ def main(ctx):
     text_model(ctx, quick)
     editor_sweep(ctx, quick)
     close_while_paused(ctx, quick)
+    # both directions at once, with windows (Lifecycle with flow control):
+    # nothing written is lost when EOF / CLOSE / WINDOW_ADJUST cross
+    cc.duplex_flow(ctx, 'C07', quick, DUPLEX, ctx.seed + 29)
     ctx.assumptions += [
         'one data unit of the model = one byte (x1) or 1024 bytes (x1k)',
         'writer = server session channel, reader = client session channel; '
